@@ -269,3 +269,92 @@ Proof.
     + unfold price_value. destruct (build (h0 :: h)) as [ps|]; [|reflexivity].
       destruct (normalize ps V) as [np|]; reflexivity.
 Qed.
+
+(* ------------------------------------------------------------ Part D: the number of steps *)
+Open Scope Z_scope.
+
+Lemma cell_count_filter a c l : cell_count a c l = Z.of_nat (length (filter (cellb a c) l)).
+Proof.
+  induction l as [|p l IH]; [reflexivity|]. cbn [cell_count filter]. rewrite IH.
+  destruct (cellb a c p); cbn [length]; lia.
+Qed.
+
+Lemma filter_map_length {A B} (f : B -> bool) (g : A -> B) l : length (filter f (map g l)) = length (filter (fun x => f (g x)) l).
+Proof. induction l as [|x l IH]; [reflexivity|]. cbn [map filter]. destruct (f (g x)); cbn [length]; rewrite IH; reflexivity. Qed.
+
+Lemma filter_filter_and {A} (f g : A -> bool) l : filter f (filter g l) = filter (fun x => g x && f x) l.
+Proof.
+  induction l as [|x l IH]; [reflexivity|]. cbn [filter]. destruct (g x); cbn [filter andb]; [|exact IH].
+  destruct (f x); rewrite IH; reflexivity.
+Qed.
+
+Lemma dposts_filter (P : Z -> bool) : forall ds, days_dated ds ->
+  dposts (filter (fun x => P (d_date x)) ds) = filter (fun dp => P (fst dp)) (dposts ds).
+Proof.
+  induction ds as [|d ds IH]; intros Hd; [reflexivity|]. inversion Hd as [|? ? Hx Hrest]; subst.
+  unfold LedgerProofs.days_postings in *. cbn [filter map concat]. rewrite filter_app, <- (IH Hrest).
+  destruct (P (d_date d)) eqn:E; cbn [map concat].
+  - f_equal. symmetry. apply filter_all_true. intros dp Hin. rewrite (day_postings_date d dp Hx Hin). exact E.
+  - rewrite (filter_all_false (fun dp => P (fst dp)) (dday d)); [reflexivity|].
+    intros dp Hin. rewrite (day_postings_date d dp Hx Hin). exact E.
+Qed.
+
+Lemma count_on_days close dl part a c T :
+  cell_count a c (vposts (days_upto T (built_days close dl part)))
+  = Z.of_nat (length (filter (fun dp : Z * posting => (fst dp <=? T) && cellb a c (snd dp)) (flat_postings dl))).
+Proof.
+  rewrite cell_count_filter, <- snd_dposts, filter_map_length. unfold days_upto.
+  rewrite (dposts_filter (fun d => d <=? T) _ (built_days_dated close dl part)), filter_filter_and.
+  f_equal. apply Permutation_length. apply perm_filter'. apply built_days_perm.
+Qed.
+
+Lemma split_count {A} (key : A -> Z) (g : A -> bool) W col : W - 1 <= col -> forall l,
+  length (filter (fun x => (key x <=? col) && g x) l)
+  = Nat.add (length (filter (fun x => (key x <=? W - 1) && g x) l)) (length (filter (fun x => in_window W col (key x) && g x) l)).
+Proof.
+  intros Hle. induction l as [|x l IH]; [reflexivity|]. cbn [filter]. unfold in_window in *.
+  destruct (g x); rewrite ?andb_false_r, ?andb_true_r; [|exact IH].
+  destruct (key x <=? col) eqn:E1, (key x <=? W - 1) eqn:E2, (W <=? key x) eqn:E3; cbn [andb length]; try lia.
+Qed.
+
+Lemma days_upto_length T ds : length (days_upto T ds) = length (filter (fun d => d <=? T) (dates ds)).
+Proof. unfold days_upto, dates. rewrite filter_map_length. reflexivity. Qed.
+
+Lemma filter_insert_date (P : Z -> bool) x : forall l, (length (filter P (insert_date x l)) <= length (filter P l) + 1)%nat.
+Proof.
+  induction l as [|y l IH]; cbn [insert_date filter].
+  - destruct (P x); cbn [length]; lia.
+  - destruct (x =? y); [cbn [filter]; lia|]. destruct (x <? y); cbn [filter].
+    + destruct (P x); cbn [length]; lia.
+    + destruct (P y); cbn [length]; lia.
+Qed.
+
+Lemma built_days_dates_count (P : Z -> bool) close dl part :
+  (length (filter P (dates (built_days close dl part)))
+   <= length (filter P (WellformedSpec.dates dl)) + (if close then length (periods part) else 0))%nat.
+Proof.
+  destruct (builder_canonical dl) as (_ & Hd & _). cbn zeta in Hd.
+  unfold built_days. destruct close.
+  - unfold builder_touch. cbn [b_days]. unfold start_dates. rewrite <- (map_length p_start (periods part)).
+    unfold dates at 1. rewrite <- Hd. generalize (b_days (builder_of dl)). generalize (map p_start (periods part)).
+    induction l as [|d l IH]; intros days; cbn [fold_left length]; [lia|].
+    specialize (IH (upd_day days d (fun x => x))).
+    rewrite (upd_day_dates days d (fun x => x) (fun x => eq_refl)) in IH.
+    pose proof (filter_insert_date P d (map d_date days)). lia.
+  - unfold dates at 1. rewrite Hd. lia.
+Qed.
+
+Theorem day_steps_journal cfg dl part a c col :
+  p_start (span part) - 1 <= col ->
+  day_steps a c (built_days (bc_close cfg) dl part) (p_start (span part) - 1) col <= cell_steps cfg dl part a c col.
+Proof.
+  intros Hle. unfold day_steps, cell_steps, bookings_in, days_in. set (W := p_start (span part)) in *.
+  rewrite !count_on_days, !days_upto_length.
+  rewrite (split_count (fun dp : Z * posting => fst dp) (fun dp => cellb a c (snd dp)) W col Hle).
+  pose proof (split_count (fun d : Z => d) (fun _ => true) W col Hle (dates (built_days (bc_close cfg) dl part))) as Hs.
+  rewrite !(filter_ext (fun x => (x <=? col) && true) (fun d => d <=? col)) in Hs by (intros; apply andb_true_r).
+  rewrite !(filter_ext (fun x => (x <=? W - 1) && true) (fun d => d <=? W - 1)) in Hs by (intros; apply andb_true_r).
+  rewrite !(filter_ext (fun x => in_window W col x && true) (in_window W col)) in Hs by (intros; apply andb_true_r).
+  pose proof (built_days_dates_count (in_window W col) (bc_close cfg) dl part) as Hc.
+  destruct (bc_close cfg); lia.
+Qed.
